@@ -389,7 +389,7 @@ fn privileged_cases(sim: &Sim) -> Vec<Case> {
 }
 
 fn sender_classes(sim: &Sim) -> Vec<String> {
-    let mut v: BTreeSet<String> = [HUB, BSEI, STSEI, REWARD, DISPATCHER, REGISTRY, OWNER, "owner2", "owner3", UPDATER, KEEPER, INTRUDER, AIRDROP, SWAP, "user0", "user1"].iter().map(|s| s.to_string()).collect();
+    let mut v: BTreeSet<String> = [HUB, BSEI, STSEI, REWARD, DISPATCHER, REGISTRY, OWNER, "owner2", "owner3", "owner4", UPDATER, KEEPER, INTRUDER, AIRDROP, SWAP, "user0", "user1"].iter().map(|s| s.to_string()).collect();
     for c in [HUB, DISPATCHER, REWARD, REGISTRY] {
         let (o, n) = owner_of(sim, c);
         v.insert(o);
@@ -399,7 +399,46 @@ fn sender_classes(sim: &Sim) -> Vec<String> {
     v.into_iter().collect()
 }
 
-fn c10_matrix(sim: &mut Sim, _rng: &mut Rng, idx: usize, out: &mut Vec<Violation>) {
+/// The matrix on the current state and on three derived ownership states of every ownable
+/// contract: transfer pending (nominee != owner), transfer completed (ex-owner exists),
+/// transfer abandoned (a replaced nominee exists).
+fn c10_matrix(sim: &mut Sim, rng: &mut Rng, idx: usize, out: &mut Vec<Violation>) {
+    c10_matrix_on(sim, idx, out);
+    let variant = rng.below(3);
+    let mut c = child_of(sim);
+    for contract in [HUB, DISPATCHER, REWARD, REGISTRY] {
+        let (owner, _) = owner_of(&c, contract);
+        if owner.is_empty() {
+            continue;
+        }
+        let nominee = if owner == "owner2" { "owner3" } else { "owner2" };
+        let set = |who: &str, n: &str| tx_step(raw("ownership", who, contract, &json!({"set_owner": {"new_owner_addr": n}}), vec![]));
+        match variant {
+            0 => {
+                c.apply(&set(&owner, nominee));
+            }
+            1 => {
+                c.apply(&set(&owner, nominee));
+                c.apply(&tx_step(raw("ownership", nominee, contract, &json!({"accept_ownership": {}}), vec![])));
+            }
+            _ => {
+                c.apply(&set(&owner, nominee));
+                c.apply(&set(&owner, "owner4"));
+            }
+        }
+    }
+    c.stats.probe(match variant {
+        0 => "c10_matrix_with_pending_transfer",
+        1 => "c10_matrix_after_completed_transfer",
+        _ => "c10_matrix_after_abandoned_transfer",
+    });
+    let mut vs = vec![];
+    c10_matrix_on(&mut c, idx, &mut vs);
+    out.extend(vs);
+    absorb(sim, c, idx, out);
+}
+
+fn c10_matrix_on(sim: &mut Sim, idx: usize, out: &mut Vec<Violation>) {
     let paused = sim.obs.hub.as_ref().and_then(|h| h.params.paused).unwrap_or(false);
     let cases = privileged_cases(sim);
     let senders = sender_classes(sim);
